@@ -699,7 +699,15 @@ func GetLatestReferenceUpdaterEntry(storer gitstore.Storer, opts ...GetLatestRef
 	// Do initial walk if either before condition is set
 	if len(options.BeforeEntryID) != 0 || options.BeforeEntryNumber != 0 {
 		slog.Debug("Scanning RSL for search start point using before condition...")
+		untilEntrySeen := false
 		for !iteratorT.GetID().Equal(options.BeforeEntryID) && (iteratorT.GetNumber() == 0 || iteratorT.GetNumber() != options.BeforeEntryNumber) {
+			if len(options.UntilEntryID) != 0 && iteratorT.GetID().Equal(options.UntilEntryID) {
+				// The until entry is newer than the before anchor, so
+				// no entry can be both before the anchor and not older
+				// than the until entry
+				untilEntrySeen = true
+			}
+
 			if annotation, isAnnotation := iteratorT.(*AnnotationEntry); isAnnotation {
 				allAnnotations = append(allAnnotations, annotation)
 			}
@@ -722,12 +730,24 @@ func GetLatestReferenceUpdaterEntry(storer gitstore.Storer, opts ...GetLatestRef
 			allAnnotations = append(allAnnotations, annotation)
 		}
 
+		if untilEntrySeen || (len(options.UntilEntryID) != 0 && iteratorT.GetID().Equal(options.UntilEntryID)) {
+			// before is exclusive, so nothing at or after the until entry
+			// remains to be considered
+			return nil, nil, ErrRSLEntryNotFound
+		}
+
 		// Set it to parent as this is the first entry considered below
 		// While this entry may match equal until condition, that's fine
 		// as the until condition is inclusive
 		iteratorT, err = GetParentForEntry(storer, iteratorT)
 		if err != nil {
 			return nil, nil, err
+		}
+
+		if options.UntilEntryNumber != 0 && iteratorT.GetNumber() < options.UntilEntryNumber {
+			// The before anchor was the last entry within the until
+			// bound
+			return nil, nil, ErrRSLEntryNotFound
 		}
 	}
 
@@ -782,16 +802,19 @@ func GetLatestReferenceUpdaterEntry(storer gitstore.Storer, opts ...GetLatestRef
 			break
 		}
 
+		if len(options.UntilEntryID) != 0 && iteratorT.GetID().Equal(options.UntilEntryID) {
+			// UntilEntryID is inclusive: the until entry has been
+			// considered and didn't match, nothing older can be
+			// returned
+			return nil, nil, ErrRSLEntryNotFound
+		}
+
 		iteratorT, err = GetParentForEntry(storer, iteratorT)
 		if err != nil {
 			return nil, nil, err
 		}
 
 		if options.UntilEntryNumber != 0 && iteratorT.GetNumber() < options.UntilEntryNumber {
-			return nil, nil, ErrRSLEntryNotFound
-		}
-
-		if len(options.UntilEntryID) != 0 && iteratorT.GetID().Equal(options.UntilEntryID) {
 			return nil, nil, ErrRSLEntryNotFound
 		}
 	}
